@@ -295,6 +295,8 @@ void QXmppTransferJob::accept(const QString &filePath)
         }
 
         d->iodevice = file;
+        // the job created the file: it is closed (and thereby flushed) when the job finishes
+        d->deviceIsOwn = true;
         setLocalFileUrl(QUrl::fromLocalFile(filePath));
         setState(QXmppTransferJob::StartState);
     }
